@@ -104,3 +104,49 @@ func specMs(d time.Duration) float64 { return ConvertDurationToMs(d) }
 //@ loop 1 step[C05.ser.first] forall(k, 0, len(results), iter(results[k]) != nil ==> results[k] == iter(results[k]))
 //@ loop 2 invariant[j.probe]  probe != nil ==> p.MinTTL <= probe.TTL && probe.TTL <= p.MaxTTL
 //@ loop 2 invariant[j.clock]  now() >= sel(sendClock, sendN-1)
+
+// ---- the parallel engine. The results table is protected by resultsMu; its monitor invariant holds whenever
+// the lock is free, under every interleaving. writeProbe ($1) is the only writer; its postcondition is the
+// transition rule of the merge (C07): the table depends on the accepted replies only through this rule.
+
+//@ func TracerouteParallel
+//@ safety C03
+//@ monitor resultsMu protects results
+//@ inv[C01.slot]            forall(k, 0, len(results), results[k] != nil ==> int(results[k].TTL) == k && int(p.MinTTL) <= k)
+//@ requires[pre.nonnil]       t != nil && ctx != nil
+//@ requires[pre.ghost]        sendN >= 0
+//@ ensures[C10.par.atom]      ret1 != nil ==> ret0 == nil
+//@ ensures[C03.par.len]       ret1 == nil ==> len(ret0) >= 1 && len(ret0) <= int(p.MaxTTL)-int(p.MinTTL)+1
+//@ ensures[C03+C01.par.ttl]   ret1 == nil ==> forall(k, 0, len(ret0), ret0[k] != nil ==> int(ret0[k].TTL) == int(p.MinTTL)+k)
+//@ ensures[C03.par.onlylast]  ret1 == nil ==> forall(k, 0, len(ret0)-1, !specIsDest(ret0[k]))
+//@ ensures[C03.par.extent]    ret1 == nil ==> specIsDest(ret0[len(ret0)-1]) || len(ret0) == int(p.MaxTTL)-int(p.MinTTL)+1
+//@ ensures[C19.par.valid]     ret1 == nil ==> p.MinTTL >= 1 && p.MinTTL <= p.MaxTTL
+//@ ensures[C06.par.order]     (sendN == old(sendN) || sendN - old(sendN) <= int(p.MaxTTL)-int(p.MinTTL)+1) && forall(k, old(sendN), sendN, sel(sendLog, k) == int(p.MinTTL) + (k - old(sendN)))
+//@ ensures[C06.par.pace]      forall(k, old(sendN)+1, sendN, sel(sendClock, k) >= sel(sendClock, k-1) + int(p.SendDelay))
+
+//@ func TracerouteParallel$1
+//@ safety C07
+//@ requires[pre.probe]     probe != nil && p.MinTTL <= probe.TTL && int(probe.TTL) < len(results)
+//@ ensures[C07.rule]       results[probe.TTL] == ite(atlock(results[probe.TTL]) == nil, probe, ite(!atlock(results[probe.TTL]).IsDest && probe.IsDest, probe, atlock(results[probe.TTL])))
+//@ ensures[C07.others]     forall(k, 0, len(results), k != int(probe.TTL) ==> results[k] == atlock(results[k]))
+//@ ensures[C14.unlocked]   !held(resultsMu)
+//@ modifies elemtype(*ProbeResponse), resultsMu
+
+//@ func TracerouteParallel$2
+//@ safety C06
+//@ requires[pre.valid]        p.MinTTL >= 1 && p.MinTTL <= p.MaxTTL && t != nil && writerCtx != nil && sendN >= 0
+//@ ensures[C06.par.order]     (sendN == old(sendN) || sendN - old(sendN) <= int(p.MaxTTL)-int(p.MinTTL)+1) && forall(k, old(sendN), sendN, sel(sendLog, k) == int(p.MinTTL) + (k - old(sendN)))
+//@ ensures[C06.par.pace]      forall(k, old(sendN)+1, sendN, sel(sendClock, k) >= sel(sendClock, k-1) + int(p.SendDelay))
+//@ stable C06.par.order C06.par.pace
+//@ modifies ghost clock, ghost sendN, ghost sendLog, ghost sendClock
+//@ loop 1 invariant[i.range]  int(p.MinTTL) <= i && i <= int(p.MaxTTL)+1
+//@ loop 1 invariant[C06.order] sendN == old(sendN) + (i - int(p.MinTTL)) && forall(k, old(sendN), sendN, sel(sendLog, k) == int(p.MinTTL) + (k - old(sendN)))
+//@ loop 1 invariant[C06.pace] forall(k, old(sendN)+1, sendN, sel(sendClock, k) >= sel(sendClock, k-1) + int(p.SendDelay))
+//@ loop 1 invariant[C06.last] sendN > old(sendN) ==> now() >= sel(sendClock, sendN-1) + int(p.SendDelay)
+
+//@ func TracerouteParallel$3
+//@ safety C09
+//@ requires[pre.valid]        p.MinTTL >= 1 && p.MinTTL <= p.MaxTTL && t != nil && groupCtx != nil && len(results) == int(p.MaxTTL)+1 && !held(resultsMu)
+//@ ensures[C14.unlocked]      !held(resultsMu)
+//@ modifies elemtype(*ProbeResponse), resultsMu, ghost clock
+//@ loop 1 invariant[unlocked] !held(resultsMu)
